@@ -1,6 +1,8 @@
 # -*- coding: utf-8 -*-
 import math
 
+from ..units import is_quantity, to_unitless
+
 
 def nernst_potential(
     ion_conc_out, ion_conc_in, charge, T, constants=None, units=None, backend=math
@@ -44,4 +46,7 @@ def nernst_potential(
         F = constants.Faraday_constant
         R = constants.molar_gas_constant
 
-    return (R * T) / (charge * F) * backend.log(ion_conc_out / ion_conc_in)
+    ratio = ion_conc_out / ion_conc_in
+    if is_quantity(ratio):
+        ratio = to_unitless(ratio)  # e.g. mM/M is not a plain number until rescaled
+    return (R * T) / (charge * F) * backend.log(ratio)
